@@ -26,6 +26,9 @@ Final == I!Finish(s).w
 Cex(name) == PrintT(<<"CEX", ToJson([inv |-> name, h |-> hist])>>) /\ FALSE
 RowsOnceInOrder == O!SameRowsOpt(O!Expected(hist), Final) \/ Cex("RowsOnceInOrder")
 
+\* C15: every hunk line is highlighted in the language its own file's name selects
+LanguageByName == O!LanguageByName(hist, I!Finish(s).sy) \/ Cex("LanguageByName")
+
 \* C11: bounded lag and never revised
 Lag == O!LagOK(hist, s.w, Buf) \/ Cex("Lag")
 PrefixStable == O!IsPrefixOf(s.w, Final) \/ Cex("PrefixStable")
